@@ -6,6 +6,8 @@ From Coq.Strings Require Import Byte.
 Import ListNotations.
 From GA.Model Require Import Fasta.
 From GA.Proofs Require Import FastaProofs.
+From GA.Model Require Phylip.
+From GA.Proofs Require PhylipProofs.
 
 (* for every wrap width and every representable alignment, parsing what the
    writer wrote gives the alignment back: same names, same order, same residues *)
@@ -19,6 +21,16 @@ Theorem C02_fasta_representable_meaning :
   forall a, representable a = forallb (fun r => good_name (fst r) && good_seq (snd r)) a.
 Proof. reflexivity. Qed.
 Print Assumptions C02_fasta_representable_meaning.
+
+(* Phylip, relaxed names, for the three layouts (interleaved blocks of any width with groups of any
+   size - the constants PHYLIP_LINE and PHYLIP_BLOCK can change -, one line, no groups): reading back what the writer wrote - names up to the first blank, residues with blanks
+   removed, blocks appended row by row - gives the alignment, for every alignment of non-empty names
+   without blanks and rows of equal positive length without blanks *)
+Theorem C02_phylip_roundtrip :
+  forall wl wb ly a L, 0 < wl -> Phylip.strict ly = false -> a <> [] -> 0 < L -> Forall (PhylipProofs.good_row L) a ->
+  Phylip.read (length a) (Phylip.write wl wb ly a) = a.
+Proof. exact PhylipProofs.phylip_roundtrip. Qed.
+Print Assumptions C02_phylip_roundtrip.
 
 Definition C02_all_formats_statement : Prop :=
   forall (writef : list row -> list byte) (parsef : list byte -> res) (repr : list row -> bool) a,
